@@ -181,3 +181,65 @@ CONTRACTS += [
                ('past-is-the-latest-such-weekday-strictly-before-the-reference-date',
                 f'result.past_value == date_with(last_weekday_before(ordinal_of(reference), {_ISOW}), 0)')]),
 ]
+
+BDP = DT + 'base_dateperiod.py::BaseDatePeriodParser.'
+
+
+def _period_cfg(**flags):
+    f = dict(is_year_to_date=False, is_month_to_date=False, is_week_only=False, is_weekend=False, is_month_only=False,
+             is_year_only=False)
+    f.update(flags)
+    funcs = {k: Returns(Const(v)) for k, v in f.items()}
+    funcs['get_swift_day_or_month'] = Returns(Expr('swift'))
+    funcs['get_swift_year'] = Returns(Expr('swift'))
+    return Config(tables=dict(month_of_year=Map('str', 'int', 1, 12)), values=dict(unspecific_end_of_range_regex=Const(None)),
+                  funcs=funcs)
+
+
+def _period_parser(**flags):
+    return Rec(DT + 'base_dateperiod.py::BaseDatePeriodParser', dict(config=_period_cfg(**flags), _inclusive_end_period=Const(False)))
+
+
+_OWP_RX = {'one_word_period_regex': {'mode': 'full', 'groups': {}}}
+
+CONTRACTS += [
+    Contract('dp.one_word_period.week', BDP + '_parse_one_word_period', ['C08'], decorators=['dispatch'],
+             params=dict(swift=Int(-2, 2), self=_period_parser(is_week_only=True), source=Word(1, 12), reference=DateTime(1950, 2090)),
+             regex_env=_OWP_RX,
+             ensures=[('iso-week-containing-the-reference-shifted-by-swift-weeks',
+                       'result.success and ordinal_of(result.future_value[0]) == monday_of(ordinal_of(reference)) + 7 * swift and '
+                       'ordinal_of(result.future_value[1]) == monday_of(ordinal_of(reference)) + 7 * swift + 7 and '
+                       'result.past_value is result.future_value'),
+                      ('timex-is-the-iso-year-and-week-of-that-week',
+                       'result.timex == fmt(iso_year_of_week(monday_of(ordinal_of(reference)) + 7 * swift), 4) + "-W" + '
+                       'fmt(iso_week_of_week(monday_of(ordinal_of(reference)) + 7 * swift), 2)')]),
+    Contract('dp.one_word_period.month', BDP + '_parse_one_word_period', ['C08'], decorators=['dispatch'],
+             params=dict(swift=Int(-1, 1), self=_period_parser(is_month_only=True), source=Word(1, 12), reference=DateTime(1950, 2090)),
+             requires=['reference.day <= 28'], regex_env=_OWP_RX,
+             ensures=[('calendar-month-containing-the-reference-shifted-by-swift',
+                       'result.success and '
+                       'result.future_value[0] == date_with(ordinal(shift_month(reference.year, reference.month, swift)[0], '
+                       'shift_month(reference.year, reference.month, swift)[1], 1), 0) and '
+                       'result.future_value[1] == date_with(ordinal(shift_month(reference.year, reference.month, swift + 1)[0], '
+                       'shift_month(reference.year, reference.month, swift + 1)[1], 1), 0) and '
+                       'result.past_value[0] == result.future_value[0] and result.past_value[1] == result.future_value[1]'),
+                      ('timex-is-that-month',
+                       'result.timex == fmt(shift_month(reference.year, reference.month, swift)[0], 4) + "-" + '
+                       'fmt(shift_month(reference.year, reference.month, swift)[1], 2)')],
+             note='reference day <= 28: month arithmetic of the missing datedelta package on days 29-31 is not assumed (DESIGN 4.6)'),
+    Contract('dp.one_word_period.year', BDP + '_parse_one_word_period', ['C08'], decorators=['dispatch'],
+             params=dict(swift=Int(-1, 1), self=_period_parser(is_year_only=True), source=Word(1, 12), reference=DateTime(1950, 2090)),
+             requires=['reference.day <= 28'], regex_env=_OWP_RX,
+             ensures=[('calendar-year-containing-the-reference-shifted-by-swift',
+                       'result.success and result.future_value[0] == date_with(ordinal(reference.year + swift, 1, 1), 0) and '
+                       'result.future_value[1] == date_with(ordinal(reference.year + swift + 1, 1, 1), 0)'),
+                      ('timex-is-that-year', 'result.timex == fmt(reference.year + swift, 4)')]),
+    Contract('dp.one_word_period.month_to_date', BDP + '_parse_one_word_period', ['C08', 'C11'], decorators=['dispatch'],
+             params=dict(swift=Const(0), self=_period_parser(is_month_to_date=True), source=Word(1, 12), reference=DateTime(1950, 2090)),
+             regex_env=_OWP_RX,
+             ensures=[('from-the-first-of-the-month-to-the-reference',
+                       'result.success and result.future_value[0] == date_with(ordinal(reference.year, reference.month, 1), 0) and '
+                       'result.future_value[1] == reference and result.past_value[0] == result.future_value[0] and '
+                       'result.past_value[1] == reference'),
+                      ('timex-is-that-month', 'result.timex == fmt(reference.year, 4) + "-" + fmt(reference.month, 2)')]),
+]
